@@ -18,6 +18,9 @@
  *        holdq <maxms> <quietms>  <sys> <path> <nth>    keep this thread stopped until no thread of the program has
  *                                                       entered any system call for <quietms> (everything else is
  *                                                       blocked or done), or <maxms> passed
+ *        trunc <len>              <sys> <path> <nth>    the ENVIRONMENT truncates the file the call names (its first
+ *                                                       resolved path) to <len> bytes just before the call proceeds
+ *                                                       (a source shrinking while it is being copied)
  *    <nth> = 0 means every occurrence; <path> = * matches anything, =<path> matches that path exactly, anything
  *    else is a substring; <sys> = * any logged call;
  * 3. with -S/-P/-M holds random threads at random calls (schedule exploration);
@@ -88,7 +91,7 @@ static const struct sysdesc *lookup(long nr) {
 }
 
 /* ---- rules ---- */
-enum { A_FAIL, A_RET, A_CLAMP, A_KILL, A_KILLAFTER, A_HOLD, A_HOLDQ };
+enum { A_FAIL, A_RET, A_CLAMP, A_KILL, A_KILLAFTER, A_HOLD, A_HOLDQ, A_TRUNC };
 struct rule { int act; long p1, p2; char sys[32]; char path[PATH_MAX]; long nth; long seen; };
 static struct rule rules[256];
 static int nrules;
@@ -289,6 +292,9 @@ static void at_entry_stop(struct thr *t, struct user_regs_struct *r) {
         case A_KILLAFTER: t->killafter = 1; snprintf(t->injdesc, sizeof t->injdesc, "killafter"); break;
         case A_HOLD: t->held = 1; t->hold_until = now_ms() + ru->p1; t->hold_evs = ru->p2 ? nentries + ru->p2 : 0; t->hold_quiet = 0; break;
         case A_HOLDQ: t->held = 1; t->hold_until = now_ms() + ru->p1; t->hold_evs = 0; t->hold_quiet = ru->p2; break;
+        case A_TRUNC:
+            if (t->path1[0] && truncate(t->path1, (off_t)ru->p1) == 0) snprintf(t->injdesc, sizeof t->injdesc, "trunc %ld", ru->p1);
+            break;
         }
     }
     if (t->inj) { r->orig_rax = (unsigned long long)-1; ptrace(PTRACE_SETREGS, t->tid, 0, r); }
@@ -329,6 +335,7 @@ static void load_rules(const char *path) {
         else if (!strcmp(act, "clamp")) ru->act = A_CLAMP; else if (!strcmp(act, "kill")) ru->act = A_KILL;
         else if (!strcmp(act, "killafter")) ru->act = A_KILLAFTER; else if (!strcmp(act, "hold")) ru->act = A_HOLD;
         else if (!strcmp(act, "holdq")) ru->act = A_HOLDQ;
+        else if (!strcmp(act, "trunc")) ru->act = A_TRUNC;
         else { fprintf(stderr, "sup: bad action %s\n", act); exit(99); }
         if (++nrules >= 256) break;
     }
